@@ -168,6 +168,16 @@ def declares_more_than_it_holds(b):
                 if c[8:10] == b"= ":
                     cards.setdefault(c[:8].rstrip(), c[10:].split(b"/")[0].strip())
             pos = hstart + (pos - hstart + 2879) // 2880 * 2880
+            if hstart == 0:
+                # an absurd spline order makes FitsModel.default_extents count to it in unary (nth (N.to_nat order)); the C++ rejects
+                # such a file before it gets there
+                for k, v in cards.items():
+                    if k.startswith(b"ORDER"):
+                        try:
+                            if not (0 <= int(v) <= 10 ** 6):
+                                return True
+                        except ValueError:
+                            pass
             naxis = int(cards.get(b"NAXIS", b"0"))
             if naxis > 999:
                 return True
@@ -194,6 +204,7 @@ class Runner:
         shutil.rmtree(self.work, ignore_errors=True)
         os.makedirs(self.work)
         self.valid = None
+        self.model_timeouts = []
     def p(self, name):
         return os.path.join(self.work, name)
     def stack(self, cmd, timeout=3000):
@@ -227,14 +238,14 @@ class Runner:
         todo = []
         for fid, path in files:
             if declares_more_than_it_holds(open(path, "rb").read()):
-                res[fid] = {"checked": "DECLINED", "mem": "DECLINED", "unchecked": "DECLINED", "safe": "NA", "tail": "declared-size-exceeds-file"}
+                res[fid] = {"checked": "DECLINED", "mem": "DECLINED", "unchecked": "DECLINED", "safe": "NA", "tail": "declared-size-exceeds-file-or-absurd-order"}
             else:
                 todo.append((fid, path))
         while todo:
             L = ["%s %s %s" % (fid, path, path + ".mdl") for fid, path in todo]
             open(self.p("m.list"), "w").write("\n".join(L) + "\n")
             try:
-                pm = self.stack([self.model, "read", self.p("m.list")], timeout=60 + len(todo) // 2)
+                pm = self.stack([self.model, "read", self.p("m.list")], timeout=30 + len(todo) // 10)
                 outtxt, rc = pm.stdout, pm.returncode
             except subprocess.TimeoutExpired as e:
                 outtxt, rc = (e.stdout or b"").decode() if isinstance(e.stdout, bytes) else (e.stdout or ""), "timeout"
@@ -249,6 +260,7 @@ class Runner:
                 raise BuildError("model driver failed: " + str(rc))
             # the first file without a result is the one the driver hung / died on
             res[rest[0][0]] = {"checked": "DECLINED", "mem": "DECLINED", "unchecked": "DECLINED", "safe": "NA", "tail": "model-timeout"}
+            self.model_timeouts.append(rest[0][0])
             todo = rest[1:]
         return res
     def run_impl(self, files):
@@ -298,8 +310,16 @@ class Runner:
             pth = self.p(fid + ".fits")
             open(pth, "wb").write(b)
             paths.append((fid, pth))
+        import time as _t
+        t0 = _t.time()
         model = self.run_model(paths)
+        for fid in self.model_timeouts:
+            cov.setdefault("model_timeouts", []).append([fid, dict((f, c) for f, c, _ in files).get(fid)])
+        self.model_timeouts = []
+        t1 = _t.time()
         status, crashes = self.run_impl(paths)
+        cov["seconds_model"] = round(cov.get("seconds_model", 0) + t1 - t0, 1)
+        cov["seconds_impl"] = round(cov.get("seconds_impl", 0) + _t.time() - t1, 1)
         bycls = {fid: (cls, b) for fid, cls, b in files}
         def fail(fid, sig, text, extra=None):
             cls, b = bycls[fid]
@@ -359,7 +379,11 @@ class Runner:
                 # ---- correspondence: outcome class
                 # a file that ends inside a data unit: the disk driver fails when the missing record is needed; FitsModel drops the
                 # whole HDU (EXTENTS absent -> default extents). Compared only when the model rejects anyway.
-                skip = unsupported or (entry in ("rfile", "ctor", "crfile") and m.get("tail") == "ETruncData" and maccept)
+                # ... and a file that is not a whole number of blocks: what cfitsio's disk driver makes of the final partial block
+                # (header cards in it are seen, data in it gives READ_ERROR) is not transcribed; the memory entry points are
+                # compared (they see whole blocks only, modelled by whole_blocks)
+                disk = entry in ("rfile", "ctor", "crfile")
+                skip = unsupported or (disk and m.get("tail") == "ETruncData" and maccept) or (disk and len(b) % 2880 != 0)
                 if not skip:
                     cov["class_comparisons"] += 1
                     if ok != maccept:
@@ -410,7 +434,7 @@ class Runner:
                 if not why:
                     cov["accepted_safe_tables"] += 1
                 # ---- exact comparison with the model
-                if m["checked"] == "ACCEPT" and not unsupported and m.get("tail") != "ETruncData":
+                if m["checked"] == "ACCEPT" and not unsupported and m.get("tail") != "ETruncData" and len(b) % 2880 == 0:
                     a, bm = idump, mdump
                     if cls in AUX_INEXACT:
                         a = [l for l in a if not l.startswith(("aux", "naux"))]; bm = [l for l in bm if not l.startswith(("aux", "naux"))]
@@ -492,7 +516,7 @@ def run(info, out):
     # every shipped file must load, be well-formed and survive the battery
     files += [("shipped_" + os.path.basename(f)[:-5], "shipped", open(f, "rb").read()) for f in ship]
     fixed = len(files)
-    n = 1500 if tier == "quick" else 30000
+    n = 4000 if tier == "quick" else 40000
     pool = bases + small_ship
     for i in range(n):
         g = rng.fork("mut%d" % i)
